@@ -185,12 +185,12 @@ CHECKS = {
     "C18": {
         "test": "TestC18", "level": "exploration", "engine": "dbm",
         "technique": "property-based lifecycle scripts over generated histories, with the checker's storage as mutation log",
-        "quick": {"shards": 16, "n": 250, "timeout": 600},
-        "thorough": {"shards": 16, "n": 12000, "timeout": 3000},
+        "quick": {"shards": 13, "n": 300, "timeout": 600, "extra": [{"test": "TestC18S", "n": 150, "shards": 3}]},
+        "thorough": {"shards": 13, "n": 14000, "timeout": 3000, "extra": [{"test": "TestC18S", "n": 20000, "shards": 3}]},
         "floor": {"quick": 1000, "thorough": 20000},
         "shrink": False,
         "replay_runs": 10,
-        "rule": "rapid draws a prior history (data only in the journal / in tables / compaction pending / open transaction / live snapshots) and 1-5 lifecycle scenes: a second Open while open (must fail with the storage's lock error); Close then Open(ReadOnly) - also with a buffer flush forced to be pending at Close - all model data must be served, Put/Delete/Write/CompactRange/OpenTransaction must return ErrReadOnly and the storage log must show no create/write/sync/remove/rename/setmeta; SetReadOnly on the live DB, drain background work (VerifWaitIdleRO), up to 3000 further reads, drain again: no further mutation, reads match the model; every public method after Close returns ErrClosed (iterators/snapshots/transactions their own errors), nothing touches storage, second Close is ErrClosed, the lock is free; released snapshots/iterators report their 'released' errors; Get/Has/GetSnapshot/GetProperty racing with Close return the normal result or ErrClosed and Close returns. "
+        "rule": "rapid draws a prior history (data only in the journal / in tables / compaction pending / open transaction / live snapshots) and 1-5 lifecycle scenes: a second Open while open (must fail with the storage's lock error); Close then Open(ReadOnly) - also with a buffer flush forced to be pending at Close - all model data must be served, Put/Delete/Write/CompactRange/OpenTransaction must return ErrReadOnly and the storage log must show no create/write/sync/remove/rename/setmeta; SetReadOnly on the live DB, drain background work (VerifWaitIdleRO), up to 3000 further reads, drain again: no further mutation, reads match the model; every public method after Close returns ErrClosed (iterators/snapshots/transactions their own errors), nothing touches storage, second Close is ErrClosed, the lock is free; released snapshots/iterators report their 'released' errors; Get/Has/GetSnapshot/GetProperty racing with Close return the normal result or ErrClosed and Close returns. A second search (TestC18S) runs generated put/delete/second-open/close-reopen/read-only-session programs on the repository's own storages (storage.OpenFile in a fresh temporary directory, storage.NewMemStorage): a second leveldb.Open and a second OpenFile (either mode) on an owned storage must fail, the storage must be available again after Close with all data, a read-only OpenFile + Open(ReadOnly) session must serve all data, reject Put/CompactRange with ErrReadOnly, exclude a read-write OpenFile, and leave the directory byte-for-byte unchanged (names, sizes, SHA-1). "
                 "Non-trivial: read-only open with data in the journal, >=8 methods exercised after Close, or a SetReadOnly scene.",
         "level_text": "Exploration over generated histories x scene scripts; the mutation oracle is exact (every storage call is logged).",
         "level_note": "Trusted: vfs log; VerifWaitIdleRO hook to define 'background work has drained'. Iterators are released before Close (documented requirement), so NewIterator is not part of the racing set.",
